@@ -290,8 +290,11 @@ def svg_color_matches(path_color, opacity, want):
     return (r, g, b) == tuple(want[:3]) and abs(a - want[3] / 255.0) <= 0.005
 
 
-def check_svg(data, matrix, kw, out, what, want, side, page, colour_cells=None):
-    """colour_cells: optional {rgba-or-None: set of cells} for multi-colour documents (C11)."""
+def check_svg(data, matrix, kw, out, what, want, side, page, colour_cells=None, expected=None):
+    """Representation-agnostic check of an SVG document: the paints (background fill, stroked paths, in document
+    order) are composed per cell of the (side x side) module grid and the top-most paint of every cell is compared
+    with the expected colour of that cell. `expected(row, col)` -> RGBA or None; default: two-colour document
+    from kw['dark'] / kw['light'] and the set `want` of dark cells."""
     doc = vector.read_svg(data)
     scale = kw.get('scale', 1)
     pw, ph = doc['page']
@@ -316,67 +319,133 @@ def check_svg(data, matrix, kw, out, what, want, side, page, colour_cells=None):
         exp = kw.get(key, dflt)
         if (doc['attrs'].get(attr) or None) != (exp or None):
             out.append(('svg-attribute', dict(what, attr=attr, found=doc['attrs'].get(attr), expected=exp)))
-    strokes = [p for p in doc['paths'] if p['fill'] is None]
-    fills = [p for p in doc['paths'] if p['fill'] is not None]
+    if expected is None:
+        dark = kw.get('dark', '#000')
+        light = kw.get('light')
+        dark_c = colors.parse(dark) if dark is not None else None
+        light_c = colors.parse(light) if light is not None else None
+
+        def expected(r, c):
+            return dark_c if (r, c) in want else light_c
+    lineclass = kw.get('lineclass', 'qrline')
+    top = {}          # cell -> ('fill' | 'stroke', colour attr, opacity attr)
+    strokes_on = {}   # cell -> number of stroked paths covering it
     for p in doc['paths']:
         if not close(p['scale'], scale):
             out.append(('scale-transform', dict(what, found=p['scale'])))
             return out
         if p['stroke_width'] not in (None, '1'):
             out.append(('svg-stroke-width', dict(what, found=p['stroke_width'])))
-    # background
-    if colour_cells is None:
-        light = kw.get('light')
-        dark = kw.get('dark', '#000')
-        want_by_colour = {}
-        if dark is not None:
-            want_by_colour[colors.parse(dark)] = want
-        elif kw.get('draw_transparent'):
-            want_by_colour[None] = want
-        bg_want = colors.parse(light) if light is not None else None
-    else:
-        want_by_colour = dict(colour_cells)
-        bg_want = want_by_colour.pop('__background__', None)
-    if bg_want is not None:
-        if len(fills) != 1:
-            out.append(('background-missing' if not fills else 'background-multiple', what))
-        else:
-            f = fills[0]
-            pts = f['pts']
+        if p['fill'] is not None:
+            pts = p['pts']
             xs = [x for x, _ in pts]
             ys = [y for _, y in pts]
-            if not f['closed'] or min(xs) > 1e-9 or min(ys) > 1e-9 or not close(max(xs) * f['scale'], page) or not close(max(ys) * f['scale'], page) or len(pts) < 4:
-                out.append(('background-does-not-fill-page', dict(what, pts=pts[:6], scale=f['scale'], page=page)))
-            ok = svg_color_matches(f['fill'], f['fill_opacity'], bg_want)
-            if ok is False:
-                out.append(('background-colour', dict(what, found=(f['fill'], f['fill_opacity']), expected=bg_want)))
-    elif fills:
-        out.append(('background-unexpected', dict(what, fill=fills[0]['fill'])))
-    # stroked paths, one per colour
-    lineclass = kw.get('lineclass', 'qrline')
-    remaining = dict(want_by_colour)
-    for p in strokes:
+            if not p['closed'] or len(pts) < 4 or p['segs'] and False:
+                out.append(('fill-path-not-closed', dict(what, pts=pts[:6])))
+                continue
+            x0, x1, y0, y1 = min(xs), max(xs), min(ys), max(ys)
+            full = x0 <= 1e-9 and y0 <= 1e-9 and (close(x1 * p['scale'], page) or x1 * p['scale'] > page) \
+                and (close(y1 * p['scale'], page) or y1 * p['scale'] > page)
+            if not full:
+                out.append(('background-does-not-fill-page', dict(what, pts=pts[:6], scale=p['scale'], page=page)))
+            for r in range(side):
+                for c in range(side):
+                    if x0 - 1e-9 <= c and c + 1 <= x1 + 1e-9 and y0 - 1e-9 <= r and r + 1 <= y1 + 1e-9:
+                        top[(r, c)] = ('fill', p['fill'], p['fill_opacity'])
+            continue
         if (p['cls'] or None) != (lineclass or None):
             out.append(('svg-attribute', dict(what, attr='path class', found=p['cls'], expected=lineclass)))
         segs = [(x1 * p['scale'], y * p['scale'], x2 * p['scale']) for (x1, y, x2) in p['segs']]
         cells, probs = vector.cover(segs, p['scale'])
-        match = None
-        if p['stroke'] is None:
-            match = None if None in remaining else '__nomatch__'
-        else:
-            match = '__nomatch__'
-            for col in remaining:
-                if col is not None and svg_color_matches(p['stroke'], p['stroke_opacity'], col):
-                    match = col
-                    break
-        if match == '__nomatch__':
-            if p['stroke'] is None and not set(cells):
-                continue
-            out.append(('stroke-colour', dict(what, found=(p['stroke'], p['stroke_opacity']),
-                                              expected=[c for c in remaining][:4])))
+        if probs:
+            out.append(('off-grid-stroke', dict(what, first=probs[:3], n=len(probs))))
             continue
-        compare_cells(cells, probs, remaining.pop(match), side, out, dict(what, colour=match))
-    for col, cellset in remaining.items():
-        if cellset and col is not None:
-            out.append(('colour-not-painted', dict(what, colour=col, modules=len(cellset))))
+        invisible = p['stroke'] is None
+        if not invisible:
+            try:
+                invisible = colors.web_to_rgba(p['stroke'], p['stroke_opacity'])[3] == 0
+            except colors.BadColor:
+                invisible = False
+        for rc, k in cells.items():
+            if invisible:
+                continue   # a path without stroke / with zero opacity paints nothing
+            strokes_on[rc] = strokes_on.get(rc, 0) + k
+            top[rc] = ('stroke', p['stroke'], p['stroke_opacity'])
+    outside = [rc for rc in strokes_on if not (0 <= rc[0] < side and 0 <= rc[1] < side)]
+    if outside:
+        out.append(('stroke-outside-page', dict(what, n=len(outside), first=sorted(outside)[:3])))
+    twice = [rc for rc, k in strokes_on.items() if k > 1]
+    if twice:
+        out.append(('module-painted-twice', dict(what, n=len(twice), first=sorted(twice)[:3])))
+    wrong = []
+    unknown_names = set()
+    for r in range(side):
+        for c in range(side):
+            exp = expected(r, c)
+            t = top.get((r, c))
+            if exp is None or exp[3] == 0:
+                if t is not None and t[0] == 'stroke' and not (t[2] is not None and float(t[2]) == 0.0):
+                    wrong.append((r, c, t, None))
+                continue
+            if t is None:
+                wrong.append((r, c, None, exp))
+                continue
+            ok = svg_color_matches(t[1], t[2], exp)
+            if ok is None:
+                unknown_names.add(t[1])
+            elif not ok:
+                wrong.append((r, c, t, exp))
+    if wrong:
+        out.append(('cell-colour', dict(what, n_cells=len(wrong), first=[(r, c, t, e) for r, c, t, e in wrong[:4]],
+                                        cells=[(r, c) for r, c, _, _ in wrong[:12]])))
+    if unknown_names:
+        out.append(('colour-name-unknown-to-oracle', dict(what, names=sorted(unknown_names))))
     return out
+
+
+# ================================================================ module types
+TYPE_LIGHT = {'finder': 6, 'separator': 8, 'alignment': 10, 'timing': 12, 'format': 14, 'version': 16, 'data': 4}
+TYPE_DARKMODULE = 512
+TYPE_QUIET = 18
+_CLS_NAME = {qr.FINDER: 'finder', qr.SEP: 'separator', qr.TIMING: 'timing', qr.ALIGN: 'alignment', qr.FORMAT: 'format',
+             qr.VERSION: 'version', qr.DATA: 'data'}
+
+# documented keyword -> module type codes (docs/colorful-qrcodes.rst)
+KEYWORD_TYPES = {
+    'finder_dark': 6 << 8, 'finder_light': 6, 'data_dark': 4 << 8, 'data_light': 4, 'version_dark': 16 << 8,
+    'version_light': 16, 'format_dark': 14 << 8, 'format_light': 14, 'alignment_dark': 10 << 8, 'alignment_light': 10,
+    'timing_dark': 12 << 8, 'timing_light': 12, 'separator': 8, 'dark_module': 512, 'quiet_zone': 18,
+}
+
+
+def type_grid(matrix, border):
+    """Module type code of every cell incl. the quiet zone, from the independent function map."""
+    n = len(matrix)
+    version = qr.version_of_size(n)
+    cls, _ = qr.function_map(version)
+    side = n + 2 * border
+    g = [[TYPE_QUIET] * side for _ in range(side)]
+    for y in range(n):
+        for x in range(n):
+            k = cls[y][x]
+            if k == qr.DARKMOD:
+                t = TYPE_DARKMODULE
+            else:
+                t = TYPE_LIGHT[_CLS_NAME[k]]
+                if k != qr.SEP and matrix[y][x]:
+                    t <<= 8
+            g[y + border][x + border] = t
+    return g
+
+
+def colour_map(kw, default_dark, default_light):
+    """type code -> requested colour spec (documented fallback: dark / light)."""
+    dark = kw.get('dark', default_dark)
+    light = kw.get('light', default_light)
+    m = {}
+    for key, t in KEYWORD_TYPES.items():
+        if key in kw:
+            m[t] = kw[key]
+        else:
+            m[t] = dark if (t >> 8) else light
+    return m
